@@ -495,6 +495,16 @@ func runC19(t *testing.T, c SvcCase) *kit.Result {
 				fail(v)
 			}
 		}
+		if res.V == nil && pmgr != nil {
+			// an operator makes the node read-only (maintenance): the service passes
+			// on what the replication manager reports about it
+			e.SetReadOnly(true)
+			_, _, _, _, ro := pmgr.GetNodeInfo()
+			if r, err := svc.GetNodeInfo(ctx, &pb.GetNodeInfoRequest{}); err != nil || r.ReadOnly != ro {
+				fail(&kit.Violation{Kind: "service-mismatch", Signature: "nodeinfo-read-only-not-passed-on", Detail: fmt.Sprintf("the engine was made read-only (SetReadOnly(true)); the replication manager reports read_only=%v, GetNodeInfo says %v, %v", ro, r, err)})
+			}
+			e.SetReadOnly(false)
+		}
 		res.Probes["rejected_requests"] += int64(rejected)
 		res.Probes["scan_streams_abandoned_by_the_client"] += int64(abandonedScans)
 		res.Probes["handles"] += int64(len(handles))
